@@ -69,8 +69,12 @@ func refResultsHash(codes []uint32, datas [][]byte) []byte {
 }
 
 // refMedianTime: the voting-power-weighted median of the timestamps of the non-absent
-// entries of the commit (BFT time).
-func refMedianTime(commit *types.Commit, vals *types.ValidatorSet) (time.Time, bool) {
+// entries of the commit (BFT time, spec/consensus/bft-time.md: "the median of the Vote.Time
+// fields, where the value of Vote.Time is counted a number of times proportional to the voting
+// power"): the middle element of that multiset, the lower of the two middle ones when its size
+// is even. The second result is the element one position lower when the size is odd (what an
+// integer "total/2" threshold selects), used only to classify a mismatch.
+func refMedianTime(commit *types.Commit, vals *types.ValidatorSet) (time.Time, time.Time, bool) {
 	type wt struct {
 		t time.Time
 		w int64
@@ -89,17 +93,23 @@ func refMedianTime(commit *types.Commit, vals *types.ValidatorSet) (time.Time, b
 		}
 	}
 	if len(ws) == 0 {
-		return time.Time{}, false
+		return time.Time{}, time.Time{}, false
 	}
 	sort.SliceStable(ws, func(i, j int) bool { return ws[i].t.Before(ws[j].t) })
-	var cum int64
-	for _, x := range ws {
-		cum += x.w
-		if cum >= total/2 {
-			return x.t, true
+	at := func(pos int64) time.Time { // pos: 1-based position in the multiset
+		if pos < 1 {
+			pos = 1
 		}
+		var cum int64
+		for _, x := range ws {
+			cum += x.w
+			if cum >= pos {
+				return x.t
+			}
+		}
+		return ws[len(ws)-1].t
 	}
-	return ws[len(ws)-1].t, true
+	return at((total + 1) / 2), at(total / 2), true
 }
 
 // checkDecidedHeader compares the header of the block decided at h with values derived
@@ -147,8 +157,13 @@ func (m *monitor) checkDecidedHeader(n *simNode, h int64, blk *types.Block, meta
 			fail("time", "block time %v is not after the previous block's %v", blk.Time, prev.time)
 		}
 		if pv, err := n.sstore.LoadValidators(h - 1); err == nil {
-			if mt, ok := refMedianTime(blk.LastCommit, pv); ok && !mt.Equal(blk.Time) {
-				fail("time", "block time %v, weighted median of the previous commit is %v", blk.Time, mt)
+			if mt, below, ok := refMedianTime(blk.LastCommit, pv); ok && !mt.Equal(blk.Time) {
+				if below.Equal(blk.Time) {
+					// known finding: the element below the middle one of an odd-sized multiset
+					fail("time-median-below-middle", "block time %v is the entry below the middle of the previous commit's weighted timestamps (odd total power); the weighted median is %v", blk.Time, mt)
+				} else {
+					fail("time", "block time %v, weighted median of the previous commit is %v", blk.Time, mt)
+				}
 			}
 		}
 		if !bytes.Equal(blk.ValidatorsHash, prev.nextValsHash) {
